@@ -171,7 +171,7 @@ Definition shift (a : Z) (x : option (Z * Z * Z)) : option (Z * Z * Z) :=
 Lemma last_set_shift rh k a : last_set rh k a = shift a (last_set rh k 0).
 Proof.
   revert a. induction rh as [|o r IH]; intro a; cbn [last_set]; [reflexivity|].
-  destruct o as [k' v ttl|k'|k'| | |d|]; try apply IH.
+  destruct o as [k' v ttl|k'|k'| | |d| |]; try apply IH.
   - destruct ((k' =? k) && accepted ttl); [cbn [shift]; f_equal; f_equal; lia | apply IH].
   - destruct (k' =? k); [reflexivity | apply IH].
   - reflexivity.
@@ -182,7 +182,7 @@ Qed.
 Lemma last_set_accepted rh k a v ttl el : last_set rh k a = Some (v, ttl, el) -> 0 < ttl.
 Proof.
   revert a. induction rh as [|o r IH]; intro a; cbn [last_set]; [discriminate|].
-  destruct o as [k' v' ttl'|k'|k'| | |d|]; try apply IH.
+  destruct o as [k' v' ttl'|k'|k'| | |d| |]; try apply IH.
   - destruct (k' =? k); cbn [andb]; [|apply IH].
     unfold accepted. destruct (0 <? ttl') eqn:Hacc; [|apply IH].
     intro H. inversion H; subst. lia.
@@ -217,7 +217,7 @@ Proof.
     { intros Hl He H. apply IH in H as (r2 & r1 & -> & Hpos & Hall & ->).
       exists (o :: r2), r1. repeat split; auto.
       change (o :: r2) with ([o] ++ r2). rewrite elapsed_app. lia. }
-    destruct o as [k' v' ttl'|k'|k'| | |d|].
+    destruct o as [k' v' ttl'|k'|k'| | |d| |].
     + destruct (k' =? k) eqn:Hk; cbn [andb].
       * apply Z.eqb_eq in Hk. subst k'. unfold accepted.
         destruct (0 <? ttl') eqn:Hacc.
@@ -235,12 +235,13 @@ Proof.
       * constructor; [exact I | exact Hall].
       * cbn [elapsed]. lia.
     + apply Hskip; [exact I | reflexivity].
+    + apply Hskip; [exact I | reflexivity].
   - intros (r2 & r1 & -> & Hpos & Hall & ->).
     revert a. induction Hall as [|o r2 Ho Hall IH]; intro a; cbn [app last_set].
     + rewrite Z.eqb_refl. unfold accepted.
       assert (H : (0 <? ttl) = true) by lia. rewrite H. cbn [andb elapsed].
       f_equal. f_equal. lia.
-    + destruct o as [k' v' ttl'|k'|k'| | |d|]; cbn [leaves] in Ho; cbn [elapsed].
+    + destruct o as [k' v' ttl'|k'|k'| | |d| |]; cbn [leaves] in Ho; cbn [elapsed].
       * assert (H : (k' =? k) && accepted ttl' = false).
         { unfold accepted. destruct Ho as [Ho|Ho]; [apply Z.eqb_neq in Ho; rewrite Ho; reflexivity|].
           assert (H : (0 <? ttl') = false) by lia. rewrite H. apply andb_false_r. }
@@ -250,6 +251,7 @@ Proof.
       * apply IH.
       * contradiction.
       * rewrite IH. f_equal. f_equal. lia.
+      * apply IH.
       * apply IH.
 Qed.
 
